@@ -2,32 +2,26 @@ import os, sys
 sys.path.insert(0, os.path.join(os.path.dirname(__file__), '..', '..', 'tools'))
 from vlib import Unit, Query, Runner
 SRCS = ['src/options/parser.cpp', 'src/options/option.cpp', 'src/options/toggle.cpp', 'src/options/multi_option.cpp', 'src/options/group.cpp', 'src/env/get.cpp']
-CFG = ['one toggle with a short name', 'reversible toggle + option with short name, description, env hint and default + positionals', 'option in the default group; toggle and multi-option in a second group']
+CFG = ['one toggle with a short name', 'reversible toggle + option with short name, description, env hint and default + positionals', 'option in the default group; toggle and multi-option in a second group', 'option whose spelling is wider than the description column with a wrapping description; option with an empty default']
 
 
 def plan(tier):
     th = tier == 'thorough'
     qs, corpus = [], []
-    for cfg in range(3):
+    for cfg in ((0, 3, 1, 2) if th else (0, 3)):
         d = ['-DMODE_USAGE', '-DCFG=%d' % cfg, '-DPMAX=%d' % (16 if th else 8), '-DCONCRETE_NAMES']
-        prof = [[0], [5], [8], [1]]
+        pmax = 16 if th else 8
+        prof = [[v] for v in range(pmax + 1)]      # every value of the one symbolic scalar is profiled: the loop bounds are exact in the first round
         qs.append(Query('usage_cfg%d' % cfg, d, ['prior content of five or more bytes', 'no prior content'], unwind=2, hardcap=340, est_gb=10, timeout=3000 if th else 1500, profile=prof, harness_unwind=405, extra_cbmc=['--max-field-sensitivity-array-size', '512'],
                         sample={'declaration': CFG[cfg], 'symbolic': 'the one-byte long names, the number of bytes already in the stream (0..8)', 'streams': 'fresh stringstream, stringstream with prior content, non-seekable cout'}))
-        corpus += [(d, p) for p in prof]
-    for nw in ((2, 3, 4) if th else (2, 3)):
-        d = ['-DMODE_PAD', '-DNW=%d' % nw]
-        prof = [[3, 2, 4, 1][:nw] + [0, 8], [6, 6, 6, 6][:nw] + [4, 6], [1, 1, 1, 1][:nw] + [2, 12], [5, 3, 6, 2][:nw] + [1, 7]]
-        qs.append(Query('pad_w%d' % nw, d, ['text wrapped'], unwind=2, hardcap=70, est_gb=4, timeout=1500, profile=prof, harness_unwind=165,
-                        sample={'unit': 'io::terminal::format_padded', 'words': nw, 'symbolic': 'word lengths 1..6, left_pad 0..4, max_width left_pad+2..12'}))
-        corpus += [(d, p) for p in prof]
+        corpus += [(d, p) for p in prof[::4]]
     units = []
-    for cfg, cap in ((0, 110), (1, 330), (2, 300)):
+    for cfg, cap in ((0, 110), (1, 330), (2, 300), (3, 300)):
         units.append(Unit('usage%d' % cfg, 'harness/C15/h_c15.cpp', 'harness/C15/cb_c15.c', repo_srcs=SRCS, caps={'str': cap, 'vec': 24, 'map': 5, 'ss': cap, 're': 4},
                           cxx_defs=['-DNITRO_VERIF_NO_MESSAGES'], queries=[q for q in qs if q.name == 'usage_cfg%d' % cfg], corpus=[c for c in corpus if '-DCFG=%d' % cfg in c[0]], wrap=['getenv']))
-    units.append(Unit('pad', 'harness/C15/h_c15.cpp', 'harness/C15/cb_c15.c', repo_srcs=SRCS, caps={'str': 60, 'vec': 8, 'map': 5, 'ss': 60, 're': 4},
-                      cxx_defs=['-DNITRO_VERIF_NO_MESSAGES'], queries=[q for q in qs if q.name.startswith('pad_')], corpus=[c for c in corpus if '-DMODE_PAD' in c[0]], wrap=['getenv']))
+    units = [u_ for u_ in units if u_.queries]
     return Runner('C15', tier, units,
-                  bounds={'declarations': 'three concrete shapes with symbolic one-byte names', 'prior_stream_content': '0..8 bytes (thorough: 0..16), symbolic', 'wrapping_law': '2-3 (thorough 4) words of 1..6 bytes at a scaled geometry'},
-                  outside=['descriptions / names / defaults of arbitrary length at the real 40/80 geometry beyond the three shapes', 'more than two groups', 'geometry-independence of the wrapping law beyond the scaled ranges'],
+                  bounds={'declarations': 'four concrete shapes (quick: two) with symbolic one-byte names', 'prior_stream_content': '0..8 bytes (thorough: 0..16), symbolic', 'wrapping_law': 'not decided as a law (out of reach, DESIGN 11.5); the produced texts are checked for width and word order'},
+                  outside=['descriptions / names / defaults of arbitrary length at the real 40/80 geometry beyond the four shapes', 'more than two groups', 'the wrapping law for descriptions of arbitrary word lengths'],
                   assumptions=['std::cout is the non-seekable stream core of the vstd model (tellp() == -1); natively the replay connects std::cout to a pipe',
                                'real libstdc++ std::sort (header-only) is in the IR'])
